@@ -1,5 +1,7 @@
 (* C04 — Every search step maps a consistent solution to a consistent one. *)
 From VRP Require Import Base.Tac Model.Core Spec.Feasible Model.Eval Spec.Inv Model.Context Proofs.ContextP.
+From VRP Require Import Model.Operators Proofs.OperatorsP Proofs.OperatorsDP.
+From Coq Require Import Permutation.
 
 (* ---- the checker that is run on every dumped state of the real operators decides the invariant ---- *)
 Theorem C04_checker_sound_complete : forall P d, inv_b P d = [] <-> Inv P d.
@@ -116,4 +118,184 @@ Proof.
     destruct Ea as [->|[->|[->| ->]]], Eb as [->|[->|[->| ->]]], Ec as [->|[->|[->| ->]]]; vm_compute; congruence. }
   split; [intros l []|]. split; [apply inv_b_nil; vm_compute; reflexivity|]. split; [reflexivity|].
   eexists. split; [vm_compute; reflexivity|]. split; [apply inv_b_nil; vm_compute; reflexivity|reflexivity].
+Qed.
+
+(* ======================================================================================================================
+   The shipped operators as PROGRAMS (Model/Operators.v): every random draw / selection / evaluator answer is an oracle
+   argument and every theorem below quantifies over ALL of them.
+   ====================================================================================================================== *)
+
+(* ---- JobRemovalTracker ---- *)
+(* a successful try_remove_job IS the primitive PRemove on the tour's actor (so everything proved about `step` applies) *)
+Theorem C04_try_remove_job_is_primitive : forall P tr d idx j tr' d',
+  NoDup (used d) -> try_remove_job P (tr, d) idx j = ((tr', d'), true) ->
+  exists r, nth_error (d_routes d) idx = Some r /\ step P (PRemove (r_actor r) j false) d = Some d'.
+Proof. exact trj_is_step. Qed.
+
+(* the guard: a pinned job is refused, whatever the limits *)
+Theorem C04_try_remove_job_refuses_locked : forall P tr d idx j,
+  memz j (d_locked d) = true -> try_remove_job P (tr, d) idx j = ((tr, d), false).
+Proof. exact try_remove_job_locked. Qed.
+
+(* the limits: nothing is removed once the activity limit is used up; no tour is touched once either limit is used up *)
+Theorem C04_try_remove_job_at_limit : forall P tr d idx j,
+  t_acts tr = 0 -> try_remove_job P (tr, d) idx j = ((tr, d), false).
+Proof. exact try_remove_job_at_limit. Qed.
+Theorem C04_try_remove_route_at_limit : forall P tr d idx hit sel,
+  t_acts tr = 0 \/ t_routes tr = 0 -> try_remove_route P (tr, d) idx hit sel = ((tr, d), false).
+Proof. exact try_remove_route_at_limit. Qed.
+
+(* ---- every ruin (RandomJobRemoval, NeighbourRemoval, ClusterRemoval, WorstJobRemoval, AdjustedStringRemoval,
+        RandomRouteRemoval, CloseRouteRemoval / WorstRouteRemoval), for every oracle ---- *)
+Theorem C04_ruin_inv : forall P c d, metric P -> locks_nonempty P -> Inv0 P d -> Inv0 P (run_ruin P c d).
+Proof. exact ruin_inv0. Qed.
+
+(* the five job ruins ARE words of the primitive PRemove (for the real operators this is what the replay of dumped
+   transitions validates; for the programs it is a theorem) *)
+Theorem C04_job_ruin_is_primitive_word : forall P c d, is_job_ruin c = true -> NoDup (used d) ->
+  exists w, forallb is_removal w = true /\ run P w d = Some (run_ruin P c d).
+Proof. exact job_ruin_is_word. Qed.
+
+(* CompositeRuin = the ruins that were hit, then InsertionContext::restore: the FULL invariant *)
+Theorem C04_composite_ruin_inv : forall P cs d, metric P -> locks_nonempty P -> Inv P d -> Inv P (composite_ruin P cs d).
+Proof. exact composite_ruin_inv. Qed.
+
+(* pinned jobs are never removed, never leave their vehicle and keep their order: the locked part of every tour
+   (vehicle, locked jobs in tour order) is literally the same before and after - from the tracker's guard, no invariant needed *)
+Theorem C04_ruin_keeps_pinned_jobs : forall P c d, NoDup (used d) -> locked_view (run_ruin P c d) = locked_view d.
+Proof. exact ruin_locked_view. Qed.
+Theorem C04_composite_ruin_keeps_pinned_jobs : forall P cs d,
+  NoDup (used d) -> locked_view (composite_ruin P cs d) = locked_view d.
+Proof. exact composite_ruin_locked_view. Qed.
+
+(* jobs are removed WHOLE: every tour after a ruin is a tour from before with all activities of some jobs taken out;
+   hence for every job either all its activities are still there in their order, or none *)
+Theorem C04_ruin_removes_jobs_whole : forall P cs d r',
+  In r' (d_routes (composite_ruin P cs d)) ->
+  exists r, In r (d_routes d) /\ r_actor r' = r_actor r /\ (forall j, subs_of r' j = subs_of r j \/ subs_of r' j = []).
+Proof. intros P cs d. exact (jobwise_whole d _ (composite_ruin_jobwise P cs d)). Qed.
+
+(* what a ruin does to the pending lists: `required` grows at its end, ignored / unassigned / locked do not change *)
+Theorem C04_ruin_pending_lists : forall P cs d,
+  (exists gone, d_required (composite_ruin P cs d) = d_required d ++ gone) /\
+  d_ignored (composite_ruin P cs d) = d_ignored d /\ d_unassigned (composite_ruin P cs d) = d_unassigned d /\
+  d_locked (composite_ruin P cs d) = d_locked d.
+Proof. exact composite_ruin_pending. Qed.
+
+(* the removal limits are respected.  Job ruins: with `a` = the drawn activity limit and every job having 1..m activities,
+   at most `a` jobs and at most a + m - 1 activities are removed (the last job removed may overshoot: the tracker only
+   asks activities_left > 0), none of them pinned, and nothing when a = 0 *)
+Theorem C04_job_ruin_limits : forall P m c d,
+  1 <= m -> parts_bound P m -> is_job_ruin c = true -> 0 <= ruin_acts c ->
+  exists gone, d_required (run_ruin P c d) = d_required d ++ gone /\
+    Z.of_nat (length gone) <= ruin_acts c /\ sum_parts P gone <= ruin_acts c + m - 1 /\
+    (forall j, In j gone -> ~ In j (d_locked d)) /\ (ruin_acts c = 0 -> gone = []).
+Proof. exact job_ruin_limits. Qed.
+(* every ruin: the number of tours given back to the registry is at most the drawn route limit *)
+Theorem C04_ruin_routes_limit : forall P c d, NoDup (used d) -> 0 <= ruin_routes c ->
+  Z.of_nat (length (d_routes d)) - Z.of_nat (length (d_routes (run_ruin P c d))) <= ruin_routes c /\
+  (length (d_routes (run_ruin P c d)) <= length (d_routes d))%nat.
+Proof. exact ruin_routes_limit. Qed.
+
+(* the lock clause of the invariant, spelled out (it holds after every operator below because Inv does) *)
+Theorem C04_inv_pins : forall P d l, Inv0 P d -> In l (pw_locks P) ->
+  (forall j, In j (l_jobs l) -> In j (d_locked d)) /\
+  exists r, In r (d_routes d) /\ r_actor r = l_actor l /\ filter (fun j => memz j (l_jobs l)) (job_ids r) = l_jobs l.
+Proof. exact inv_locks_explicit. Qed.
+
+(* ---- operators that insert: None = the oracle broke the evaluator's contract (guard of PInsert) ---- *)
+(* every Recreate::run = InsertionHeuristic::process with its selectors *)
+Theorem C04_recreate_inv : forall P, metric P -> locks_nonempty P ->
+  forall rounds d d', Inv0 P d -> recreate P rounds d = Some d' -> Inv P d'.
+Proof. exact recreate_inv. Qed.
+Theorem C04_ruin_recreate_inv : forall P, metric P -> locks_nonempty P ->
+  forall cs rounds d d', Inv0 P d -> ruin_recreate P cs rounds d = Some d' -> Inv P d'.
+Proof. exact ruin_recreate_inv. Qed.
+Theorem C04_exchange_sequence_inv : forall P, metric P -> locks_nonempty P ->
+  forall o d d', Inv P d -> exchange_sequence P o d = Some d' -> Inv P d'.
+Proof. exact exchange_sequence_inv. Qed.
+Theorem C04_exchange_inter_route_inv : forall P, metric P -> locks_nonempty P ->
+  forall o d d', Inv P d -> exchange_inter_route P o d = Some d' -> Inv P d'.
+Proof. exact exchange_inter_route_inv. Qed.
+Theorem C04_exchange_intra_route_inv : forall P, metric P -> locks_nonempty P ->
+  forall idx j res d d', Inv P d -> exchange_intra_route P idx j res d = Some d' -> Inv P d'.
+Proof. exact exchange_intra_route_inv. Qed.
+Theorem C04_exchange_swap_star_inv : forall P, metric P -> locks_nonempty P ->
+  forall moves d d', Inv P d -> exchange_swap_star P moves d = Some d' -> Inv P d'.
+Proof. exact exchange_swap_star_inv. Qed.
+Theorem C04_reschedule_departure_inv : forall P, metric P -> locks_nonempty P ->
+  forall deps d d', Inv P d -> reschedule_departure P deps d = Some d' -> Inv P d'.
+Proof. exact reschedule_departure_inv. Qed.
+Theorem C04_redistribute_inv : forall P, metric P -> locks_nonempty P ->
+  forall removals rounds d d', Inv0 P d -> redistribute P removals rounds d = Some d' -> Inv P d'.
+Proof. exact redistribute_inv. Qed.
+
+(* ---- DecomposeSearch ---- *)
+(* the split: the groups are a partition of the tour indices, none empty *)
+Theorem C04_decompose_split_is_partition : forall d orc,
+  Permutation (concat (route_groups d orc)) (seq 0 (length (d_routes d))) /\ (forall g, In g (route_groups d orc) -> g <> []).
+Proof. exact route_groups_partition. Qed.
+(* every job has as many homes in the parts together as in the solution: nothing lost, nothing duplicated by the split *)
+Theorem C04_decompose_parts_cover : forall d orc j, sumn (fun p => homes p j) (decompose_parts d orc) = homes d j.
+Proof. exact parts_homes. Qed.
+(* the executable contract of a refinement decides `Refines` (same jobs each with as many homes as in the part, no unknown
+   ids, no duplicates, only the part's actors, acceptable tours, no new group tour, the part's locks kept) *)
+Theorem C04_refines_checker : forall P part ref, refines_b P part ref = true <-> Refines P part ref.
+Proof. exact refines_b_spec. Qed.
+(* merge of ANY refinements that respect the contract of their part (+ restore + finalize): the full invariant *)
+Theorem C04_decompose_merge_inv : forall P orc refined better d d',
+  locks_nonempty P -> Inv0 P d -> decompose_merge P orc refined better d = Some d' -> Inv P d'.
+Proof. exact decompose_merge_inv. Qed.
+(* and it is exactly the union of the chosen parts: tours and pending lists side by side, registry = the vehicles no part
+   uses (concat_dumps), every job with as many homes as the parts give it together, which is one *)
+Theorem C04_decompose_merge_is_union : forall P orc refined better d d',
+  Inv0 P d -> decompose_merge P orc refined better d = Some d' ->
+  let cs := choose better refined (decompose_fallbacks d orc) in
+  d' = finalize_ctx (p_drop_empty (concat_dumps P cs)) /\
+  Forall2 (Refines P) (decompose_parts d orc) cs /\
+  (forall j, homes (concat_dumps P cs) j = sumn (fun p => homes p j) cs) /\
+  (forall s, In s (pw_jobs P) -> sumn (fun p => homes p (j_id s)) cs = 1%nat).
+Proof. exact decompose_merge_union. Qed.
+(* the contract is satisfiable: the parts themselves are admissible refinements *)
+Theorem C04_nonvacuous_decompose_contract : forall P orc d, Inv0 P d ->
+  forallb2 (refines_b P) (decompose_parts d orc) (decompose_parts d orc) = true.
+Proof. exact decompose_identity_refines. Qed.
+
+(* ---- histories over the sum type of all modelled operator calls (CompositeRuin, Recreate, RuinAndRecreate,
+        ExchangeSequence, ExchangeInterRoute, ExchangeIntraRoute, ExchangeSwapStar, RescheduleDeparture, RedistributeSearch,
+        DecomposeSearch with its fall-back) ---- *)
+Theorem C04_operator_call_inv : forall P c d d', metric P -> locks_nonempty P -> Inv P d -> run_op P c d = Some d' -> Inv P d'.
+Proof. exact run_op_inv. Qed.
+Theorem C04_operator_history_inv : forall P cs d d',
+  metric P -> locks_nonempty P -> Inv P d -> run_calls P cs d = Some d' -> Inv P d'.
+Proof. exact run_calls_inv. Qed.
+Theorem C04_operator_trace_inv : forall P cs d, metric P -> locks_nonempty P -> Inv P d -> Forall (Inv P) (trace_calls P cs d).
+Proof. exact trace_calls_inv. Qed.
+(* "the parent is left observably unchanged", in the model: a solution recorded in the trace is not affected by the calls
+   that follow it (operators are functions of an immutable parent; the code side is the dump comparison of the harness) *)
+Theorem C04_parent_unchanged_model : forall P cs1 cs2 d k, (k <= length cs1)%nat ->
+  nth_error (trace_calls P (cs1 ++ cs2) d) k = nth_error (trace_calls P cs1 d) k \/ nth_error (trace_calls P cs1 d) k = None.
+Proof. exact trace_calls_prefix. Qed.
+
+(* ---- finding C04-F3 at the level of the ruin programs: without the triangle inequality a ruin breaks the invariant ---- *)
+Theorem C04_ruin_without_triangle_refuted :
+  exists P c d, locks_nonempty P /\ Inv P d /\ ~ Inv0 P (run_ruin P c d).
+Proof.
+  exists nm_world, (RNeighbour 1 1 [2]), nm_state. split; [intros l []|]. split; [apply inv_b_nil; vm_compute; reflexivity|].
+  intros H. apply inv0_b_spec in H. vm_compute in H. discriminate.
+Qed.
+
+(* ---- non-vacuity: a metric world, a consistent solution, a history of modelled calls that changes it (a ruin under its
+        limits, a recreate that opens a second tour, an exchange of sequences), a consistent result; every job has one part ---- *)
+Definition m_act (j : Z) : ract := (mkAct j j 0 0 60 (mkDemand 0 0 1 0) 0 0, 0).
+Definition m_history : list opcall :=
+  [ ORuinRecreate [RNeighbour 2 1 [2; 3; 1]] [RSuccess 2 1 [(0%nat, m_act 2)]; RSuccess 3 1 [(1%nat, m_act 3)]]
+  ; OExchangeSequence (mkSeq 1 2 0 1 0 0 [(3, Some [(0%nat, m_act 3)]); (2, Some [(1%nat, m_act 2)])] []) ].
+Theorem C04_nonvacuous_operators :
+  metric m_world /\ locks_nonempty m_world /\ parts_bound m_world 1 /\ Inv m_world m_state /\
+  exists d', run_calls m_world m_history m_state = Some d' /\ Inv m_world d' /\ length (d_routes d') = 2%nat /\ d' <> m_state.
+Proof.
+  destruct C04_nonvacuous as (Hm & Hl & Hi & _). split; [exact Hm|]. split; [exact Hl|].
+  split; [intros s [<-|[<-|[<-|[]]]]; cbn; lia|]. split; [exact Hi|].
+  eexists. split; [vm_compute; reflexivity|]. split; [apply inv_b_nil; vm_compute; reflexivity|]. split; [reflexivity|discriminate].
 Qed.
